@@ -511,7 +511,9 @@ def r05_11(ctx):
     all dependents unconditionally (C03 R03.5) - a member whose value was never read still has the choice depending on its visibility."""
     from . import c03
     from .common import delegate
-    delegate(ctx, c03.r03_5, lambda c: '_rec_invalidate' in c)
+    # ... and the choice is among the dependents of every symbol its conditions mention, on either side of a relation
+    # (`default B if LEVEL = WANTED`): _depend_on() descends into both operands of every binary operator
+    delegate(ctx, c03.r03_5, lambda c: '_rec_invalidate' in c or c.startswith('_depend_on/'))
 
 
 def r05_12(ctx):
